@@ -231,8 +231,8 @@ func (b *embeddedBackend) IncrBy(key []byte, delta int64) (int64, error) {
 			entry := item.Entry()
 			if kv.IsDeletedOrExpired(entry.Meta, entry.ExpiresAt) {
 				existing = false
-			} else if len(entry.Value) > 0 {
-				parsed, perr := strconvParseIntSafe(entry.Value)
+			} else {
+				parsed, perr := strconv.ParseInt(string(entry.Value), 10, 64)
 				if perr != nil {
 					return errNotInteger
 				}
